@@ -318,6 +318,16 @@ impl Database {
             }
         }
 
+        // The transactions about to be replayed are committed, also for the recovery
+        // transaction's own snapshot: what they wrote before the last checkpoint is on disk and
+        // later logged operations (an UPDATE or DELETE of such a row) must find it.
+        if let Some(last_winner) = analysis.needs_redo.iter().next_back().copied() {
+            let mut pager = self.pager.write();
+            if pager.get_last_committed_transaction() < last_winner {
+                pager.set_last_committed_transaction(last_winner);
+            }
+        }
+
         // Every transaction in the log that did not commit is rolled back: marked aborted,
         // exactly as ROLLBACK does. A transaction of which only the END record is left ended
         // before the last checkpoint; the header already knows how.
